@@ -19,7 +19,7 @@ import vlib
 import c06
 
 ROOT_CAUSES = [
-    # (id, call site at /repo HEAD b/a539b60 (function names are stable, line numbers are those of that commit), what)
+    # (id, call site at /repo HEAD e5d916a (function names are stable, line numbers are those of that commit), what)
     ("C06-dense-links-not-read", "group.go loadModernGroup (lines 222-300): only Link messages and the Symbol Table message are read",
      "a group whose links are in dense storage (Link Info message 0x02 with a fractal heap, no Link messages) is returned with no "
      "children and no error: the Link Info message is never read"),
@@ -234,8 +234,10 @@ def main():
     for d in unexplained:
         print("UNEXPLAINED", d["file"], d["path"], d["kind"], "| expected", d["expected"][:80], "| got", d["got"][:100], "|", d["ddl"])
     if a.write:
+        head = subprocess.run(["git", "-C", vlib.REPO, "rev-parse", "--short", "HEAD"], capture_output=True, text=True).stdout.strip()
         out = {"comment": "C06 known findings: (file, object path[@attribute], kind of discrepancy) triples grouped by root cause. Generated by "
-                          "tools/c06_triage.py --write from a thorough run on the pinned tree, then reviewed; never written at run time.",
+                          "tools/c06_triage.py --write from a thorough run, then reviewed; never written at run time.",
+               "generated_for_repo_commit": head,
                "root_causes": [dict(id=rc, property="C06", status="open", site=site, what=what, entries=sorted(rc_entries[rc]))
                                for rc, site, what in ROOT_CAUSES if rc_entries.get(rc)]}
         os.makedirs(os.path.dirname(c06.KNOWN_PATH), exist_ok=True)
